@@ -13,6 +13,30 @@ CLAIMED = {
         "Trusted: the harness reference graph and predicates; proptest's generator. Yen's algorithm is run in a killable helper process; its listed findings are keyed by signature in known_findings.txt.",
         "DESIGN.md section 5 C01",
     ),
+    "C02": (
+        "property-based testing: differential against a label-correcting reference shortest-path solver + SI reference cost model + A*/Dijkstra differential",
+        "Generated networks (free lengths for Dijkstra, metrically consistent by a margin for A*) x unit configurations x non-negative weights/rates/surcharges x orientations/directions; the returned route's cost is compared with a Bellman-Ford optimum over the implementation's own edge costs (1e-9), the route is re-costed under an independent SI-unit cost model against that model's optimum (0.3 %), and A* is compared with Dijkstra. Exploration level: the optimum is recomputed exactly per case, the quantifier over all networks is sampled.",
+        "Trusted: the reference Bellman-Ford, the SI unit table and the reference cost formula. Weight-factor sources covered: configuration, default, query override, query factor on configured Dijkstra.",
+        "DESIGN.md section 5 C02",
+    ),
+    "C07": (
+        "property-based testing: direct calls with generated cost configurations against a reference cost formula + metamorphic relations",
+        "200k+ generated (weights, vehicle rates incl. nested combined/offset, network rates, aggregation, state pairs incl. zero and negative changes) per quick run; traversal/access costs must be finite and > 0, estimates finite and >= 0, equal to the reference weighted sum or the floor under sum aggregation; metamorphic: linear in weights, zero-weight features and other edges' surcharges are ignored; EdgeTraversal totals through forward/reverse traversal with harness models applying exactly the generated state changes.",
+        "Trusted: the reference formula (direct transcription of the statement). Magnitudes bounded so products cannot overflow f64.",
+        "DESIGN.md section 5 C07",
+    ),
+    "C14": (
+        "property-based testing: exact-reproduction oracle on random multilinear data, differential between interpolator implementations, corner-bound/continuity/clamping oracle against the underlying random forest",
+        "Generic interpolators (1D, 2D, 3D, ND) on generated non-uniform axes must reproduce a random multilinear polynomial exactly, agree with each other and with a dummy-axis embedding, and reject outside points; the speed/grade model is rebuilt over the four bundled model files with generated bounds/bins and queried in all 9 input-unit combinations at interior, on-line, +-ulp, boundary and outside points.",
+        "Trusted: the bundled model files as data; own linspace recurrence for node positions.",
+        "DESIGN.md section 5 C14",
+    ),
+    "C17": (
+        "exhaustive enumeration of small iterator shapes + property-based testing against a nested-loop reference product",
+        "All 340 mixed-radix shapes up to 4 axes x 4 options are enumerated for the iterator; generated query objects with grid sections (scalar/object/mixed choices, any key order, non-array members, overriding axis names) are expanded by the plugin directly and through apply_input_plugins and compared as key-order-insensitive multisets with a nested-loop reference.",
+        "Trusted: the reference product. Colliding overlay keys are not generated (the statement defines no overlay order).",
+        "DESIGN.md section 5 C17",
+    ),
     "C09": (
         "property-based testing + exhaustive enumeration of the unit dimension against SI reference factors",
         "All 77 ordered unit pairs and all constructor unit combinations are enumerated; magnitudes are generated (log-uniform, signed). Oracles: identity, linearity, 0.1 % round trip, SI physical factor (own table), definitional formulas for Time/Speed/Energy::create and their rejection guards.",
